@@ -15,7 +15,11 @@ import dlib  # noqa: E402
 
 from traits.api import AdaptsTo, Either, HasTraits, Instance, Int, Supports, TraitError  # noqa: E402
 from traits.adaptation.api import (  # noqa: E402
-    AdaptationError, AdaptationManager, AdaptationOffer, adapt, set_global_adaptation_manager, supports_protocol)
+    AdaptationError, AdaptationManager, AdaptationOffer, adapt, reset_global_adaptation_manager,
+    set_global_adaptation_manager, supports_protocol)
+from traits import api as traits_api  # noqa: E402
+
+BUILTINS = {"dict": dict, "float": float, "list": list}
 
 DEFAULT = object()
 warnings.simplefilter("ignore")      # Either is deprecated in favour of Union; it is what reaches validate_trait_complex
@@ -72,6 +76,9 @@ def make_factory(oid, fac):
 def build_types(case):
     ts = []
     for i, d in enumerate(case["types"]):
+        if d.get("builtin"):          # the protocol IS a builtin value type (Supports(dict), Instance(float, adapt="yes"))
+            ts.append(BUILTINS[d["builtin"]])
+            continue
         bases = tuple(ts[j] for j in d["bases"]) or (object,)
         meta = abc.ABCMeta if d.get("abc") else type
         # every class lives in its own (fictitious) module; a case may give several classes the SAME __name__
@@ -145,15 +152,28 @@ def run_case(case):
             add_offer(op[1], op[2], op[3])
             obs.append({"k": "mut"})
             continue
+        if op[0] == "reset_global":     # somebody resets the global manager: the user's own manager must keep its offers
+            reset_global_adaptation_manager()
+            obs.append({"k": "mut"})
+            continue
+        if op[0] == "set_global":       # the user's manager is installed as the global one again
+            set_global_adaptation_manager(m)
+            obs.append({"k": "mut"})
+            continue
         src, tgt, flag, api = op
         obj = ts[src]()
-        obj.flag = bool(flag)
+        try:
+            obj.flag = bool(flag)
+        except AttributeError:          # instances of builtin types take no attributes: their flag reads False
+            pass
         signal.setitimer(signal.ITIMER_VIRTUAL, QUERY_LIMIT_S if TIMEOUTS[0] < 2 else 0.25)   # CPU time: immune to machine load
         try:
             if TIMEOUTS[0] >= 20:
                 raise QueryTimeout()
             if api == "adapt":
                 o = {"k": "value", "v": classify(m.adapt(obj, ts[tgt]), obj, DEFAULT)}
+            elif api == "adapt_module":      # the documented public function, no default: traits.api.adapt(obj, P)
+                o = {"k": "value", "v": classify(traits_api.adapt(obj, ts[tgt]), obj, DEFAULT)}
             elif api == "adapt_default":
                 o = {"k": "value", "v": classify(adapt(obj, ts[tgt], DEFAULT), obj, DEFAULT)}
             elif api == "supports":
